@@ -20,6 +20,11 @@ def run(ctx):
         progs += amlgen.all_pairs(vlib.Rng(ctx.seed + 1)) + amlgen.all_pairs(vlib.Rng(ctx.seed + 2))
     for _ in range(20000 if th else 2500):
         progs.append(amlgen.random_tree(rng, rng.choice([1, 2, 3, 4, 5, 6])))
+    import schema
+    for _ in range(3000 if th else 400):      # trees in which all integer operands of one width coincide
+        t = amlgen.random_tree(rng, rng.choice([2, 3, 4]))
+        t["tree"] = schema.equalize(t["tree"], rng)
+        progs.append(t)
     # body sizes on both sides of every PkgLength width boundary, nested so that inner width changes shift outer ones
     ranges = [(56, 70), (4084, 4100)]
     # buffer-size integer widths (255/256, 65535/65536) and 2^16 bytes of package / scope payload
